@@ -201,9 +201,12 @@ def r5(ctx):
         ty = t.raw['ty']
         if ty.startswith('std::sync::MutexGuard<') or ty.startswith('{closure@'):
             continue
+        # handles that the worker owns and gives up when it ends (the shared input, the pipeline function, its sender): they name I / O in
+        # their type but hold no item of the worker
+        if re.match(r'^(std::sync::Arc<|std::sync::mpsc::(Sync)?Sender<|&)', ty):
+            continue
         if re.search(r'\b(I|O)\b', ty):
-            allowed = ty.startswith('std::result::Result<(), std::sync::mpmc::SendError<O>>') or \
-                ty.startswith('std::result::Result<(), std::sync::mpsc::SendError<O>>')
+            allowed = re.match(r'^(std::result::Result<\(\), )?std::sync::mp[ms]c::SendError<O>>?$', ty) is not None
             ctx.require(allowed, b, 'item-drop|' + re.sub(r'[^A-Za-z]+', '_', ty)[:40],
                         'only the SendError<O> of a failed send is dropped (line %d)' % t.span['line'],
                         'a value of type %s (contains an item) is dropped on a normal path at line %d' % (ty, t.span['line']), t.span)
@@ -279,3 +282,21 @@ def r7(ctx):
 def r8(ctx):
     from rules import c09
     c09.r6(ctx)
+
+
+@rule('C05', 'R-C05-9', 'T3b LOOP-EXIT (the constructor does not wait for its workers)',
+      'Pipe::new returns without waiting: every loop of the constructor itself is the spawn loop over the thread range, and the constructor '
+      'neither loads the turn counter / a progress counter nor joins, receives or sleeps. A "warm-up" wait until N items were sent never ends '
+      'when the input has fewer than N items (the workers exit first), so nothing is ever yielded')
+def r9(ctx):
+    w = pipe.worker(ctx)
+    n = w.new
+    for lp in cfg.loops(n):
+        has_spawn = (w.spawn.bb in lp.blocks) if w.spawn is not None else False
+        ctx.require(has_spawn, n, 'constructor-loop', 'the loop at line %d of Pipe::new is the spawn loop' % n.blocks[lp.header].term.span['line'],
+                    'Pipe::new contains a loop (line %d) that does not spawn workers: the constructor waits for something the workers may never do' %
+                    n.blocks[lp.header].term.span['line'], n.blocks[lp.header].term.span)
+    waits = [t for t in n.calls(r'Atomic\\w*::load$|JoinHandle::join$|Receiver::(recv|try_recv|recv_timeout)$|thread::(sleep|yield_now|park)$|Condvar::wait\\w*$|Barrier::wait$')]
+    ctx.require(not waits, n, 'constructor-waits', 'Pipe::new does not observe or wait for worker progress',
+                'Pipe::new calls `%s` (line %d): the constructor depends on worker progress' % ((waits[0].callee_res() or '').rsplit('::', 2)[-1] if waits else '', waits[0].span['line'] if waits else 0),
+                waits[0].span if waits else None)
